@@ -17,7 +17,7 @@ From Verif Require Import Base.Bytes Idl.Ast Idl.AstUtil Idl.Resolve Idl.Resolve
      Idl.ResolveDeref Idl.ResolvePerm Idl.ResolvePermFile Idl.ResolveFacts
      Idl.ResolvableSpec Idl.ResolveComplete Idl.ResolvePath Idl.ResolveFuel Idl.ResolveFuelEnum
      Idl.ResolvableConst Idl.ResolveCompleteConst Idl.ResolvableFacts Idl.ResolveInv Idl.ResolveConst
-     Idl.ResolveService.
+     Idl.ResolveService Idl.ResolveSyntax.
 Import ListNotations.
 Local Open Scope string_scope.
 
@@ -63,6 +63,18 @@ Theorem resolve_reference_index : forall p r,
   end.
 Proof. exact ResolveFacts.resolve_reference_index. Qed.
 Print Assumptions resolve_reference_index.
+
+(* resolution only fills in resolution fields: for ALL programs, every file of the result
+   has the symbol table ([file_defs], [file_incs]) of the input file of the same name, the
+   two programs have the same file names, hence [def_of] is the same before and after *)
+Theorem C05_resolution_preserves_definitions : forall p r,
+  resolve_program p = Ok r ->
+  (forall fn f', prog_file r fn = Some f' ->
+     exists f, prog_file p fn = Some f /\ file_defs f' = file_defs f /\ file_incs f' = file_incs f) /\
+  (forall fn, prog_file r fn = None <-> prog_file p fn = None) /\
+  (forall fn n, def_of r fn n = def_of p fn n).
+Proof. exact ResolveSyntax.resolution_preserves_definitions. Qed.
+Print Assumptions C05_resolution_preserves_definitions.
 
 (* base services (the analogue of the type theorems for `extends`): a service that extends
    a local name extends a service of the file and records no reference; one that extends
